@@ -157,7 +157,8 @@ Record bucket := mkBucket {
 
 Inductive failure := FCrash | FDeadlock.
 
-(* planned repairs of the pinned code, each selectable:
+(* repairs of the pinned tree (all five are fix: commits of /repo now; Corr/C19.v
+   selects [all_fixed]), each selectable so that both behaviours stay in the development:
      fx21  Value.Collect starts from zeroed accumulators            (F21)
      fx22  max initialised from the first value                     (F22)
      fxN1  BucketStats.Set installs rules only when all are well-formed:
